@@ -53,14 +53,14 @@ Qed.
 
 (** ** [uniq_name]: result not taken; enough fuel *)
 Lemma uniq_name_fresh : forall fuel name taken n,
-  uniq_name fuel name taken = Some n -> str_mem n taken = false.
+  uniq_name fuel name taken = Some n -> str_mem (unraw n) taken = false.
 Proof.
   induction fuel as [|k IH]; intros name taken n H; simpl in H.
-  - destruct (str_mem name taken) eqn:E; [discriminate|]. injection H as <-. exact E.
-  - destruct (str_mem name taken) eqn:E; [eapply IH; exact H|]. injection H as <-. exact E.
+  - destruct (str_mem (unraw name) taken) eqn:E; [discriminate|]. injection H as <-. exact E.
+  - destruct (str_mem (unraw name) taken) eqn:E; [eapply IH; exact H|]. injection H as <-. exact E.
 Qed.
 
-Lemma uniq_name_id fuel name taken : str_mem name taken = false -> uniq_name fuel name taken = Some name.
+Lemma uniq_name_id fuel name taken : str_mem (unraw name) taken = false -> uniq_name fuel name taken = Some name.
 Proof. intros H. destruct fuel; simpl; rewrite H; reflexivity. Qed.
 
 Local Open Scope Z_scope.
@@ -85,7 +85,7 @@ Proof. induction n as [|n IH]; intros s H; [simpl; lia|]. destruct s as [|c r]; 
 
 Lemma key_suffix s : key s < key (suffix s).
 Proof.
-  unfold suffix, key. destruct (is_raw s) eqn:E.
+  unfold suffix, unraw, key. destruct (is_raw s) eqn:E.
   - pose proof (starts_with_r_hash_length s E) as Hl.
     rewrite length_append, drop_str_length by exact Hl. simpl String.length.
     destruct (is_raw (drop_str 2 s +++ "_")); lia.
@@ -116,20 +116,39 @@ Proof.
 Qed.
 
 Lemma uniq_name_none : forall fuel name taken,
-  uniq_name fuel name taken = None -> forall k, k <= fuel -> In (iter_suffix k name) taken.
+  uniq_name fuel name taken = None -> forall k, k <= fuel -> In (unraw (iter_suffix k name)) taken.
 Proof.
   induction fuel as [|f IH]; intros name taken H k Hk; simpl in H.
-  - destruct (str_mem name taken) eqn:E; [|discriminate]. replace k with 0 by lia. apply str_mem_In. exact E.
-  - destruct (str_mem name taken) eqn:E; [|discriminate].
+  - destruct (str_mem (unraw name) taken) eqn:E; [|discriminate]. replace k with 0 by lia. apply str_mem_In. exact E.
+  - destruct (str_mem (unraw name) taken) eqn:E; [|discriminate].
     destruct k as [|k']; [apply str_mem_In; exact E|]. simpl. apply (IH _ _ H). lia.
+Qed.
+
+(** the keys tried are pairwise distinct: [unraw s] is [suffix s] without its last character *)
+Lemma append_underscore_inj : forall a b, a +++ "_" = b +++ "_" -> a = b.
+Proof.
+  induction a as [|x a IH]; intros [|y b] H; cbn [String.append] in H.
+  - reflexivity.
+  - exfalso. apply (f_equal String.length) in H. cbn [String.length] in H. rewrite length_append in H. simpl in H. lia.
+  - exfalso. apply (f_equal String.length) in H. cbn [String.length] in H. rewrite length_append in H. simpl in H. lia.
+  - injection H as -> H. f_equal. exact (IH _ H).
+Qed.
+
+Lemma suffix_iter k s : suffix (iter_suffix k s) = iter_suffix (S k) s.
+Proof. replace (S k) with (k + 1) by lia. rewrite iter_suffix_add. reflexivity. Qed.
+
+Lemma unraw_iter_inj s a b : unraw (iter_suffix a s) = unraw (iter_suffix b s) -> a = b.
+Proof.
+  intros H. assert (E : suffix (iter_suffix a s) = suffix (iter_suffix b s)) by (unfold suffix; rewrite H; reflexivity).
+  rewrite !suffix_iter in E. apply iter_suffix_inj in E. lia.
 Qed.
 
 Lemma uniq_name_total name taken : exists n, uniq_name (S (List.length taken)) name taken = Some n.
 Proof.
   destruct (uniq_name (S (List.length taken)) name taken) eqn:E; [eexists; reflexivity|]. exfalso.
-  pose (its := map (fun k => iter_suffix k name) (seq 0 (S (S (List.length taken))))).
+  pose (its := map (fun k => unraw (iter_suffix k name)) (seq 0 (S (S (List.length taken))))).
   assert (Hnd : NoDup its).
-  { unfold its. apply FinFun.Injective_map_NoDup; [intros a b; apply iter_suffix_inj | apply seq_NoDup]. }
+  { unfold its. apply FinFun.Injective_map_NoDup; [intros a b; apply unraw_iter_inj | apply seq_NoDup]. }
   assert (Hincl : incl its taken).
   { intros c Hc. unfold its in Hc. apply in_map_iff in Hc as [k [<- Hk]]. apply in_seq in Hk.
     apply (uniq_name_none _ _ _ E k). lia. }
@@ -250,8 +269,19 @@ Proof.
       * intros Hn. inversion Hn as [|? ? Hna Hnl]; subst. simpl in Hna. simpl. rewrite Hna. apply S4. assumption.
 Qed.
 
+Lemma candidate_not_raw index att : unraw (candidate index att) = candidate index att.
+Proof. unfold unraw, is_raw, candidate. destruct att; reflexivity. Qed.
+
+Lemma generate_ident_not_raw : forall fuel index att taken c,
+  generate_ident fuel index att taken = Some c -> unraw c = c.
+Proof.
+  induction fuel as [|k IH]; intros index att taken c H; cbn [generate_ident] in H; [discriminate|].
+  destruct (str_mem (candidate index att) taken); [eapply IH; exact H|].
+  injection H as <-. apply candidate_not_raw.
+Qed.
+
 Lemma autogen_names : forall l0 i0 tk l0', autogen l0 i0 tk = Ok l0' ->
-  forall k, In k (plain_names l0') -> In k (plain_names l0) \/ ~ In k tk.
+  forall k, In k (plain_names l0') -> In k (plain_names l0) \/ (~ In k tk /\ unraw k = k).
 Proof.
   induction l0 as [|a l0 IH0]; intros i0 tk l0' H k Hk; cbn [autogen] in H.
   - injection H as <-. destruct Hk.
@@ -261,31 +291,39 @@ Proof.
       destruct (IH0 _ _ _ E _ Hk); [left; right; assumption | right; assumption].
     + destruct (generate_ident (S (List.length tk)) i0 0 tk) as [g|] eqn:G; [|discriminate].
       inv_ok H. injection H0 as <-. simpl in Hk |- *. destruct Hk as [<-|Hk].
-      * right. apply str_mem_false_In. eapply generate_ident_fresh; exact G.
-      * destruct (IH0 _ _ _ E _ Hk) as [?|Hnot]; [left; assumption | right; intros Hin; apply Hnot; right; exact Hin].
+      * right. split; [apply str_mem_false_In; eapply generate_ident_fresh; exact G | eapply generate_ident_not_raw; exact G].
+      * destruct (IH0 _ _ _ E _ Hk) as [?|[Hnot Hu]]; [left; assumption | right; split; [intros Hin; apply Hnot; right; exact Hin | exact Hu]].
 Qed.
 
 Lemma autogen_nodup : forall l index taken l',
   autogen l index taken = Ok l' ->
-  incl (plain_names l) taken -> NoDup (plain_names l) -> NoDup (plain_names l').
+  (forall n, In n (plain_names l) -> In (unraw n) taken) -> NoDup (map unraw (plain_names l)) ->
+  NoDup (map unraw (plain_names l')).
 Proof.
   induction l as [|a l IH]; intros index taken l' H Hi Hn; cbn [autogen] in H.
   - injection H as <-. constructor.
   - destruct a as [x r m c|x [r m n sub|ts b] t].
     + inv_ok H. injection H0 as <-. simpl in Hi, Hn |- *. eapply IH; eassumption.
-    + inv_ok H. injection H0 as <-. change (NoDup (n :: plain_names a)).
-      change (NoDup (n :: plain_names l)) in Hn. change (incl (n :: plain_names l) taken) in Hi.
+    + inv_ok H. injection H0 as <-. change (NoDup (unraw n :: map unraw (plain_names a))).
+      change (NoDup (unraw n :: map unraw (plain_names l))) in Hn.
       inversion Hn as [|? ? Hnotin Hn']; subst.
-      assert (Hi' : incl (plain_names l) taken) by (intros k Hk; apply Hi; right; exact Hk).
+      assert (Hi' : forall k, In k (plain_names l) -> In (unraw k) taken) by (intros k Hk; apply Hi; right; exact Hk).
       constructor; [|eapply IH; eassumption].
-      intros Hin. destruct (autogen_names _ _ _ _ E _ Hin) as [Ho|Hnt]; [contradiction|].
-      apply Hnt. apply Hi. left. reflexivity.
+      intros Hin. apply in_map_iff in Hin as [k [Ek Hk]].
+      destruct (autogen_names _ _ _ _ E _ Hk) as [Ho|[Hnt Hu]].
+      * apply Hnotin. rewrite <- Ek. apply in_map. exact Ho.
+      * apply Hnt. rewrite <- Hu, Ek. apply Hi. left. reflexivity.
     + destruct (generate_ident (S (List.length taken)) index 0 taken) as [g|] eqn:G; [|discriminate].
-      inv_ok H. injection H0 as <-. change (NoDup (g :: plain_names a)).
-      change (NoDup (plain_names l)) in Hn. change (incl (plain_names l) taken) in Hi.
+      inv_ok H. injection H0 as <-. change (NoDup (unraw g :: map unraw (plain_names a))).
+      change (NoDup (map unraw (plain_names l))) in Hn.
+      change (forall n, In n (plain_names l) -> In (unraw n) taken) in Hi.
       assert (Hg : ~ In g taken) by (apply str_mem_false_In; eapply generate_ident_fresh; exact G).
+      rewrite (generate_ident_not_raw _ _ _ _ _ G).
       constructor.
-      * intros Hin. destruct (autogen_names _ _ _ _ E _ Hin) as [Ho|Hnt]; [apply Hg, Hi, Ho | apply Hnt; left; reflexivity].
+      * intros Hin. apply in_map_iff in Hin as [k [Ek Hk]].
+        destruct (autogen_names _ _ _ _ E _ Hk) as [Ho|[Hnt Hu]].
+        -- apply Hg. rewrite <- Ek. apply Hi, Ho.
+        -- apply Hnt. left. rewrite <- Hu, Ek. reflexivity.
       * eapply IH; [exact E | intros k Hk; right; apply Hi; exact Hk | exact Hn].
 Qed.
 
@@ -304,7 +342,7 @@ Lemma make_unique_spec : forall l taken l',
   make_unique l taken = Ok l' ->
   Forall2 same_shape l l' /\
   (forallb is_plain_ident_arg l = true -> forallb is_plain_ident_arg l' = true) /\
-  NoDup (plain_names l') /\ (forall n, In n (plain_names l') -> ~ In n taken).
+  NoDup (map unraw (plain_names l')) /\ (forall n, In n (plain_names l') -> ~ In (unraw n) taken).
 Proof.
   induction l as [|a l IH]; intros taken l' H; cbn [make_unique] in H.
   - injection H as <-. repeat split; simpl; auto; try constructor; try (intros n []).
@@ -316,7 +354,8 @@ Proof.
       repeat split; simpl.
       * constructor; [simpl; auto | exact S1].
       * intros Hp. apply andb_true_iff in Hp as [Hp1 Hp2]. rewrite (S2 Hp2), andb_true_r. exact Hp1.
-      * constructor; [|exact S3]. intros Hin. apply (S4 _ Hin). left. reflexivity.
+      * constructor; [|exact S3]. intros Hin. apply in_map_iff in Hin as [k [Ek Hk]].
+        apply (S4 _ Hk). left. symmetry. exact Ek.
       * intros k [<-|Hk]; [apply str_mem_false_In; eapply uniq_name_fresh; exact U|].
         intros Hin. apply (S4 _ Hk). right. exact Hin.
     + inv_ok H. injection H0 as <-. destruct (IH _ _ E) as (S1 & S2 & S3 & S4).
@@ -324,15 +363,15 @@ Proof.
 Qed.
 
 Lemma make_unique_id : forall l taken,
-  (forall n, In n (plain_names l) -> ~ In n taken) -> NoDup (plain_names l) -> make_unique l taken = Ok l.
+  (forall n, In n (plain_names l) -> ~ In (unraw n) taken) -> NoDup (map unraw (plain_names l)) -> make_unique l taken = Ok l.
 Proof.
   induction l as [|a l IH]; intros taken Hd Hn; cbn [make_unique]; [reflexivity|].
   destruct a as [x r m c|x [r m n sub|ts b] t]; simpl in *.
   - rewrite IH; auto.
   - inversion Hn as [|? ? Hnotin Hn']; subst.
-    assert (E : str_mem n taken = false) by (apply str_mem_false_In, Hd; left; reflexivity).
+    assert (E : str_mem (unraw n) taken = false) by (apply str_mem_false_In, Hd; left; reflexivity).
     rewrite E. rewrite IH; [reflexivity| |exact Hn'].
-    intros k Hk [<-|Hin]; [contradiction | apply (Hd k); [right; exact Hk | exact Hin]].
+    intros k Hk [Ek|Hin]; [apply Hnotin; rewrite Ek; apply in_map; exact Hk | apply (Hd k); [right; exact Hk | exact Hin]].
   - rewrite IH; auto.
 Qed.
 
@@ -341,7 +380,7 @@ Proof.
   induction l as [|a l IH]; intros taken; cbn [make_unique]; [eexists; reflexivity|].
   destruct a as [x r m c|x [r m n sub|ts b] t].
   - destruct (IH taken) as [l' ->]. simpl. eexists; reflexivity.
-  - destruct (uniq_name_total n taken) as [n' ->]. destruct (IH (n' :: taken)) as [l' ->]. simpl. eexists; reflexivity.
+  - destruct (uniq_name_total n taken) as [n' ->]. destruct (IH (unraw n' :: taken)) as [l' ->]. simpl. eexists; reflexivity.
   - destruct (IH taken) as [l' ->]. simpl. eexists; reflexivity.
 Qed.
 
@@ -365,10 +404,10 @@ Definition stage3 (fn_name : string) (l : list fnarg) : result (list fnarg) :=
   let l1 := map simplify l in
   if all_ok l1 then Ok l1
   else let l2 := map lift l1 in
-       if all_ok l2 then Ok l2 else autogen l2 0 (fn_name :: plain_names l2).
+       if all_ok l2 then Ok l2 else autogen l2 0 (unraw fn_name :: map unraw (plain_names l2)).
 
 Lemma fix_unfold fn_name l :
-  fix_fn_param_idents fn_name l = (let* l3 := stage3 fn_name l in make_unique l3 [fn_name]).
+  fix_fn_param_idents fn_name l = (let* l3 := stage3 fn_name l in make_unique l3 [unraw fn_name]).
 Proof. reflexivity. Qed.
 
 Lemma all_plain_desired : forall l, forallb is_plain_ident_arg l = true ->
@@ -393,14 +432,24 @@ Proof.
   - right. eapply IH; eassumption.
 Qed.
 
+Lemma non_has_none_names : forall l, Forall non_has_none l ->
+  somes (map desired_name (filter is_typed l)) = plain_names l.
+Proof.
+  induction 1 as [|a l Ha _ IH]; [reflexivity|].
+  destruct a as [x r m c|x [r m k sub|ts b] t]; simpl in *.
+  - exact IH.
+  - rewrite IH. reflexivity.
+  - rewrite Ha. simpl. exact IH.
+Qed.
+
 Lemma stage3_spec fn_name l l3 :
   stage3 fn_name l = Ok l3 ->
   Forall2 same_shape l l3 /\
   forallb is_plain_ident_arg l3 = true /\
   rules_ok (map desired_name (filter is_typed l)) (plain_names l3) = true /\
-  (NoDup (somes (map desired_name (filter is_typed l))) ->
-   ~ In fn_name (somes (map desired_name (filter is_typed l))) ->
-   NoDup (plain_names l3) /\ ~ In fn_name (plain_names l3)).
+  (NoDup (map unraw (somes (map desired_name (filter is_typed l)))) ->
+   ~ In (unraw fn_name) (map unraw (somes (map desired_name (filter is_typed l)))) ->
+   NoDup (map unraw (plain_names l3)) /\ ~ In (unraw fn_name) (map unraw (plain_names l3))).
 Proof.
   unfold stage3. intros H.
   pose proof (Forall_map_simple simplify l simplify_simple) as Hs1.
@@ -424,29 +473,13 @@ Proof.
       { unfold l2. clear. induction (map simplify l); simpl; constructor; auto using lift_non_has_none. }
       specialize (S4 Hnn). rewrite Hd2, Hd1 in S4.
       split; [eapply Forall2_same_shape_trans; eassumption|]. split; [exact S2|]. split; [exact S4|].
-      intros Hnd Hnot.
-      (* the plain names of l2 are among the desired names *)
-      assert (Hsub : forall n, In n (plain_names l2) -> In n (somes (map desired_name (filter is_typed l)))).
-      { rewrite <- Hd1, <- Hd2. fold l2. clear. induction l2 as [|a l2 IH]; intros n Hn; [destruct Hn|].
-        destruct a as [x r m c|x [r m k sub|ts b] t]; simpl in *.
-        - apply IH, Hn.
-        - destruct Hn as [<-|Hn]; [left; reflexivity | right; apply IH, Hn].
-        - destruct (filter lower_initial b) as [|y [|z w]]; simpl; auto. }
-      assert (Hnd2 : NoDup (plain_names l2)).
-      { rewrite <- Hd1, <- Hd2 in Hnd. fold l2 in Hnd. clear -Hnd Hnn.
-        induction l2 as [|a l2 IH]; [constructor|]. inversion Hnn as [|? ? Ha Hl]; subst.
-        destruct a as [x r m c|x [r m k sub|ts b] t]; simpl in *.
-        - apply IH; assumption.
-        - inversion Hnd as [|? ? Hni Hnd']; subst. constructor; [|apply IH; assumption].
-          intros Hin. apply Hni. clear -Hin. induction l2 as [|a l2 IH]; [destruct Hin|].
-          destruct a as [x r m c|x [r m k' sub|ts b] t]; simpl in *.
-          + apply IH, Hin.
-          + destruct Hin as [<-|Hin]; [left; reflexivity | right; apply IH, Hin].
-          + destruct (filter lower_initial b) as [|y [|z w]]; simpl; auto.
-        - rewrite Ha in Hnd. simpl in Hnd. apply IH; assumption. }
-      split.
-      * eapply autogen_nodup; [exact H | intros n Hn; right; exact Hn | exact Hnd2].
-      * intros Hin. destruct (S3 _ Hin) as [Ho|Hnt]; [apply Hnot, Hsub, Ho | apply Hnt; left; reflexivity].
+      rewrite <- Hd1, <- Hd2. fold l2. rewrite (non_has_none_names _ Hnn).
+      intros Hnd Hnot. split.
+      * eapply autogen_nodup; [exact H | intros n Hn; right; apply in_map; exact Hn | exact Hnd].
+      * intros Hin. apply in_map_iff in Hin as [k [Ek Hk]].
+        destruct (autogen_names _ _ _ _ H _ Hk) as [Ho|[Hnt Hu]].
+        -- apply Hnot. rewrite <- Ek. apply in_map. exact Ho.
+        -- apply Hnt. left. rewrite <- Hu. symmetry. exact Ek.
 Qed.
 
 Lemma stage3_total fn_name l : exists l3, stage3 fn_name l = Ok l3.
@@ -465,26 +498,37 @@ Theorem fix_usable fn_name l l' :
   fix_fn_param_idents fn_name l = Ok l' ->
   Forall2 same_shape l l' /\
   forallb is_plain_ident_arg l' = true /\
-  NoDup (plain_names l') /\ ~ In fn_name (plain_names l').
+  NoDup (map unraw (plain_names l')) /\ ~ In (unraw fn_name) (map unraw (plain_names l')).
 Proof.
   rewrite fix_unfold. intros H. inv_ok H.
   destruct (stage3_spec _ _ _ E) as (S1 & S2 & _ & _).
   destruct (make_unique_spec _ _ _ H0) as (M1 & M2 & M3 & M4).
   repeat split; auto.
   - eapply Forall2_same_shape_trans; eassumption.
-  - intros Hin. apply (M4 _ Hin). left. reflexivity.
+  - intros Hin. apply in_map_iff in Hin as [k [Ek Hk]]. apply (M4 _ Hk). left. symmetry. exact Ek.
+Qed.
+
+(** two names that are the same identifier to rustc are never both among the result: in particular the names are
+    distinct as strings, and none is the function's *)
+Corollary fix_usable_strings fn_name l l' :
+  fix_fn_param_idents fn_name l = Ok l' ->
+  NoDup (plain_names l') /\ ~ In fn_name (plain_names l').
+Proof.
+  intros H. destruct (fix_usable _ _ _ H) as (_ & _ & N1 & N2). split.
+  - eapply NoDup_map_inv; exact N1.
+  - intros Hin. apply N2. apply in_map. exact Hin.
 Qed.
 
 Theorem fix_rules fn_name l l' :
   fix_fn_param_idents fn_name l = Ok l' ->
   let desired := map desired_name (filter is_typed l) in
-  NoDup (somes desired) -> ~ In fn_name (somes desired) ->
+  NoDup (map unraw (somes desired)) -> ~ In (unraw fn_name) (map unraw (somes desired)) ->
   rules_ok desired (plain_names l') = true.
 Proof.
   rewrite fix_unfold. intros H desired Hnd Hnot. inv_ok H.
   destruct (stage3_spec _ _ _ E) as (_ & _ & S3 & S4). destruct (S4 Hnd Hnot) as [N1 N2].
   rewrite make_unique_id in H0; [injection H0 as <-; exact S3 | | exact N1].
-  intros n Hn [<-|[]]. contradiction.
+  intros n Hn [Ek|[]]. apply N2. rewrite Ek. apply in_map. exact Hn.
 Qed.
 
 Lemma same_shape_typed_length : forall l l', Forall2 same_shape l l' ->
